@@ -32,6 +32,9 @@ func (a *application) start(mode gen.ApplicationMode, options gen.ApplicationOpt
 		return gen.ErrApplicationState
 	}
 
+	// forget the reason the previous run has been stopped with
+	a.reason = nil
+
 	// build app env
 	appEnv := make(map[gen.Env]any)
 	// 1. from core env
